@@ -48,7 +48,7 @@ func main() {
 			os.Exit(2)
 		}
 		for _, h := range hs {
-			fmt.Printf("%-6s %-14s %-9s %-5s %s.%s shard=%s:%d\n", h.Prop, h.ID, h.Tier, h.Mode, h.Pkg, h.Func, h.Shard, h.ShardN)
+			fmt.Printf("%-6s %-14s %-9s %-5s %s.%s shards=%v\n", h.Prop, h.ID, h.Tier, h.Mode, h.Pkg, h.Func, h.Opts["shard"])
 		}
 	case "selftest":
 		os.Exit(selftestMain())
@@ -188,6 +188,8 @@ func runJobs(jobs []Job, maxWorkers int, scratch string) ([]JobResult, error) {
 	return results, nil
 }
 
+var forcePreset map[string]int
+
 func checkMain(args []string) int {
 	if len(args) < 1 {
 		return usage()
@@ -210,6 +212,14 @@ func checkMain(args []string) int {
 		case "--jobs":
 			i++
 			maxWorkers, _ = strconv.Atoi(args[i])
+		case "--preset":
+			i++
+			kv := strings.SplitN(args[i], "=", 2)
+			v, _ := strconv.Atoi(kv[1])
+			if forcePreset == nil {
+				forcePreset = map[string]int{}
+			}
+			forcePreset[kv[0]] = v
 		}
 	}
 	seed, _ := strconv.ParseInt(os.Getenv("VERIF_SEED"), 10, 64)
@@ -239,17 +249,33 @@ func checkMain(args []string) int {
 		return 2
 	}
 	var jobs []Job
+	defer func() {
+		_ = forcePreset
+	}()
 	for _, h := range sel {
-		n := h.ShardN
-		if v := h.optInt(tier, "shardn", 0); v > 0 && v < n {
-			n = v
+		presets := []map[string]int{{}}
+		for k, v := range forcePreset {
+			presets[0][k] = v
 		}
-		if h.Shard == "" || n <= 1 {
-			jobs = append(jobs, Job{H: h, Tier: tier, Seed: seed})
-			continue
+		for _, d := range h.shards(tier) {
+			if _, forced := forcePreset[d.Name]; forced {
+				continue
+			}
+			var next []map[string]int
+			for _, p := range presets {
+				for i := 0; i < d.N; i++ {
+					q := map[string]int{}
+					for k, v := range p {
+						q[k] = v
+					}
+					q[d.Name] = i
+					next = append(next, q)
+				}
+			}
+			presets = next
 		}
-		for i := 0; i < n; i++ {
-			jobs = append(jobs, Job{H: h, Tier: tier, Seed: seed, Preset: map[string]int{h.Shard: i}})
+		for _, p := range presets {
+			jobs = append(jobs, Job{H: h, Tier: tier, Seed: seed, Preset: p})
 		}
 	}
 	scratch, err := os.MkdirTemp("", "zx-"+prop+"-")
